@@ -24,6 +24,10 @@ pub fn build(route: &str, cfg: &ObjectTransmissionInformation, data: &[u8], k: u
 
 pub fn pattern_data(seed: u64, k: usize, t: usize) -> Vec<u8> {
     let mut rng = StdRng::seed_from_u64(seed ^ ((k as u64) << 20) ^ (t as u64));
+    // one block in three carries structured symbols (zero, constant, periodic, repeated) instead of random bytes
+    if (seed ^ k as u64 ^ t as u64) % 3 == 0 {
+        return crate::util::structured(&mut rng, k, t);
+    }
     (0..k * t).map(|_| rng.random()).collect()
 }
 
